@@ -300,7 +300,27 @@ def run_check(prop, tier, seed, nruns=None, quiet=False):
             body, again = do_replay(path, pool)
             if same_failure(again, prop, sres["vclass"], sig_key(sres.get("sig"))):
                 reported.append((path, sres))
-            else:
+                continue
+            # The failure depends on something outside the scenario - for a
+            # deterministic library that can only be state an earlier run left
+            # behind in the interpreter.  An engine may know how to turn that
+            # into a scenario that carries its own history (C11: the rewrite
+            # repeated in one throw-away interpreter).
+            stab = getattr(eng, "stabilize", None)
+            alt = stab(prop, scenario) if stab else None
+            fixed = False
+            if alt is not None:
+                a = pool.call_one({"id": 0, "op": "replay", "engine": engine_name, "prop": prop, "scenario": alt, "params": params, "hashseed": alt["sigma"].get("hashseed", 0), "want_scenario": True})
+                ares = a["result"]
+                if ares.get("verdict") == core.Verdict.VIOLATION and not match_finding(findings, prop, ares["vclass"], ares.get("sig") or {}):
+                    small2, sres2, evals2 = shrink(pool, eng, engine_name, prop, a.get("scenario", alt), ares, params)
+                    stats["shrink_evals"] += evals2
+                    path2 = write_replay(prop, engine_name, small2, sres2, params, "viol")
+                    body2, again2 = do_replay(path2, pool)
+                    if same_failure(again2, prop, sres2["vclass"], sig_key(sres2.get("sig"))):
+                        reported.append((path2, sres2))
+                        fixed = True
+            if not fixed:
                 harness.append({"error": f"minimised replay did not reproduce: {path}", "trace": json.dumps(again, default=str)[:2000]})
         if os.environ.get("VERIF_SAVE_KNOWN"):
             for fid, (scenario, result) in known_examples.items():
